@@ -452,6 +452,11 @@ class Tr:
                 # attribute declaration of a cdef class
                 ci = s.decls.classes.setdefault(s.cls, ClassInfo(s.cls))
                 ct = 'array' if arr else ('ptr' if ptr else t)
+                if arr and dims and dims[0] is not None:
+                    try:
+                        ct = 'array:%d' % int(s.x(dims[0]))
+                    except ValueError:
+                        pass
                 ci.attrs[name] = (ct, n.visibility)
                 continue
             s.scopes[-1][name] = 'array' if arr else ('ptr' if ptr else t)
@@ -739,9 +744,47 @@ class Tr:
         name = d.base.name
         s.funcdef(name, d.args, None, None, n.body, ind, n, is_cdef=True, overridable=bool(n.overridable), decorators_of=n)
 
+    def names_in(s, node, acc):
+        """names referenced by an expression tree (used to pre-resolve lazy imports needed inside class bodies)"""
+        if node is None:
+            return
+        if isinstance(node, E.NameNode):
+            acc.add(node.name)
+        for attr in getattr(node, 'child_attrs', None) or []:
+            c = getattr(node, attr, None)
+            if c is None:
+                continue
+            for x_ in (c if isinstance(c, list) else [c]):
+                if hasattr(x_, 'child_attrs'):
+                    s.names_in(x_, acc)
+
+    def class_level_names(s, body):
+        acc = set()
+        stats = body.stats if isinstance(body, N.StatListNode) else [body]
+        for st_ in stats:
+            if isinstance(st_, N.DefNode):
+                for a in st_.args:
+                    s.names_in(a.default, acc)
+                for d in (st_.decorators or []):
+                    s.names_in(d.decorator, acc)
+            elif isinstance(st_, N.CFuncDefNode):
+                d = st_.declarator
+                while type(d).__name__ != 'CFuncDeclaratorNode':
+                    d = d.base
+                for a in d.args:
+                    s.names_in(a.default, acc)
+            elif isinstance(st_, (N.SingleAssignmentNode,)):
+                s.names_in(st_.rhs, acc)
+            elif isinstance(st_, N.StatListNode):
+                acc |= s.class_level_names(st_)
+        return acc
+
     def s_CClassDefNode(s, n, ind):
         if n.body is None:
             return  # forward declaration
+        pre = sorted(s.class_level_names(n.body) - {'self', 'True', 'False', 'None'})
+        if pre:
+            s.emit(ind, '_sx_touch_(globals(), %r)' % pre)
         bases = ', '.join(s.x(b) for b in n.bases.args) if n.bases is not None and n.bases.args else ''
         for d in (n.decorators or []):
             src = s.x(d.decorator)
@@ -767,6 +810,8 @@ class Tr:
                     defaults.append('    ' * (ind + 1) + '%s = 0.0' % an)
                 elif k == 'bint':
                     defaults.append('    ' * (ind + 1) + '%s = False' % an)
+                elif ct and ct.startswith('array:'):
+                    defaults.append('    ' * (ind + 1) + '%s = _sx_.ArrAttr(%r, %s)' % (an, an, ct[6:]))
                 elif ct in ('array', 'ptr'):
                     defaults.append('    ' * (ind + 1) + '%s = None' % an)
                 else:
